@@ -228,6 +228,8 @@ def check(ctx):
     stream.r7_guard_dominance(ctx, steps)
     stream.r6_identity(ctx, steps)
     stream.r6_count_agreement(ctx, steps)
+    n29 = stream.r29_no_shared_fields(ctx, stream.package_phase_functions(ctx))
+    run.floor('R29', n29, 8, 'schema field stores')
     select_delete_rename(ctx)
     computed_and_replace(ctx)
     from rules import independence
